@@ -19,6 +19,9 @@ Ties between the Lean layer (Model/Lock.lean, Props/C15.lean, Props/C15Table.lea
                random histories of the reliable families; afterwards: no hard mutation without lock ownership except the
                listed known findings, the recorded lock trace is a legal disciplined interleaving of the Lean model
                (`lockmon`), and (plain engine) the trees converge (Lean monitor `c01`).
+Known findings: `open:` entries (id=unlocked:<entry point>) are confirmed on every run by (A) and printed as KNOWN-FINDING; `fixed:`
+entries (the six public methods repaired by F7) are replayed by (A) as well: the entry point is called from the main thread and
+every real mutation it makes must be observed with the lock owned — an unowned one is a VIOLATION "regression of fixed finding".
 Search oracle after a break (audit failure / table change / cross-check disagreement): the same probes, widened — the
 property's own statement "the mutating thread must own the lock" evaluated on the implementation."""
 import io
@@ -1067,8 +1070,10 @@ def threaded_run(seed, idx, flavour, smart, production, nops, budget=8.0, replay
 class Judge:
     """turns observations into verdicts.  `known` = entry points listed as open known findings; `unlocked` = set of
     (entry, function) UNLOCKED rows of the static table; `mutators` = functions the extractor calls mutating."""
-    def __init__(self, known, unlocked, mutators, audited_unlocked=None):
+    def __init__(self, known, unlocked, mutators, audited_unlocked=None, fixed=()):
         self.known, self.unlocked, self.mutators = set(known), set(unlocked), set(mutators)
+        self.fixed = set(fixed)             # entry points of `fixed:` findings: replayed, every mutation must be owned
+        self.fixed_replayed = {e: 0 for e in self.fixed}
         self.audited_unlocked = set(audited_unlocked if audited_unlocked is not None else unlocked)
         self.unattributed = 0
         self.violations = []        # concrete failing inputs
@@ -1088,6 +1093,8 @@ class Judge:
             self.pairs_seen.add((o.entry, o.func, o.owned))
             if o.hard:
                 self.counts["hard"] += 1
+                if o.owned and o.entry in self.fixed:
+                    self.fixed_replayed[o.entry] += 1
             if o.owned:
                 continue
             if o.hard:
@@ -1101,6 +1108,8 @@ class Judge:
                     kind = "one atomic step (event application / pick+sync of an entry / on-demand sync) released and re-took the state " \
                            "lock: its critical section is split" if o.func.startswith("section-split") else \
                            "sync state mutated by a thread that does not own the state lock"
+                    if o.entry in self.fixed:
+                        kind = "regression of fixed finding %s%s: %s" % (FINDING_PREFIX, o.entry, kind)
                     self.violations.append(dict(ctx, kind=kind, observation=o.brief()))
             elif o.func in self.mutators and (o.entry, o.func) not in self.unlocked:
                 self.crosscheck.append(dict(ctx, kind="function with a mutating statement entered without the lock on a path the "
@@ -1218,9 +1227,11 @@ def run(res, tier, seed, proof_broken, replay):
     unlocked = {(e, q) for e, q, ok in rows if not ok}
     opens, fixed = load_known_findings(PID)
     known = {i[len(FINDING_PREFIX):]: what for i, what in opens.items() if i.startswith(FINDING_PREFIX)}
+    fixed_ents = {i[len(FINDING_PREFIX):]: what for i, what in fixed.items() if i.startswith(FINDING_PREFIX)}
     install_probe(mutators)
     PROBE.want_stack = True
-    j = Judge(known, {(e, q) for e, q, ok in rows if not ok}, mutators, {(e, q) for e, (_l, u) in audited.items() for q in u})
+    j = Judge(known, {(e, q) for e, q, ok in rows if not ok}, mutators, {(e, q) for e, (_l, u) in audited.items() for q in u},
+              fixed=fixed_ents)
     widen = bool(proof_broken or diff)
     thorough = tier == "thorough" or widen and tier != "quick"
     rng = rng_for(seed, "c15")
@@ -1307,6 +1318,10 @@ def run(res, tier, seed, proof_broken, replay):
             res.known.append("%s%s :: %s" % (FINDING_PREFIX, ent, what))
         else:
             res.notes.append("known finding %s%s no longer reproduces (stale)" % (FINDING_PREFIX, ent))
+    # ---- fixed findings: the entry point was called from the main thread and every real mutation it made was lock-owned
+    for ent in fixed_ents:
+        if not j.fixed_replayed.get(ent):
+            res.notes.append("fixed finding %s%s: its replay made no real mutation in this run (not exercised)" % (FINDING_PREFIX, ent))
     static_unlocked_entries = sorted({e for e, _q in unlocked})
     seen_pairs = {(e, f) for e, f, _o in j.pairs_seen}
     res.coverage.update({
@@ -1330,6 +1345,7 @@ def run(res, tier, seed, proof_broken, replay):
         "entry_points_exercised": sorted(entry_names), "histogram": hist, "phase_seconds": phase, "convergence_lines": len(c01_lines),
         "lockmon_verdicts": {v.split(" ")[0]: sum(1 for x in verdicts if x.split(" ")[0] == v.split(" ")[0]) for v in set(verdicts)},
         "fingerprints": fingerprints(FP_SPEC), "known_findings_confirmed": sorted(j.confirmed),
+        "fixed_findings_replayed": {e: "%d real mutations, all with the lock owned" % n for e, n in sorted(j.fixed_replayed.items())},
     })
     res.assumptions += [
         "the lock-site extractor (tools/gen_lock_sites.py, syntactic, conservative call graph by method name) is trusted; it is cross-checked "
